@@ -61,6 +61,48 @@ func runC09(p *chk.Prog, r *chk.Report) {
 	c09Delete(p, r)
 	c09Rebuild(p, r)
 	c09Resync(p, r)
+	c09NodeLabels(p, r)
+}
+
+// c09NodeLabels (shared with C05): the peers' node selectors are evaluated against the labels cached by
+// (*bgpController).SetNode; the cache and the sessions follow every change of the local node's label set.
+func c09NodeLabels(p *chk.Prog, r *chk.Report) {
+	x := r.Rule("LABEL-RESYNC", "B path", "in (*bgpController).SetNode, for the local node, every path to a return stores the node's label set in c.nodeLabels and then calls c.syncPeers, except behind labels.Equals(c.nodeLabels, <the new set>) - equality of the whole sets, nothing weaker", 2)
+	f := need(x, p, "speaker", "bgpController", "SetNode")
+	if f == nil {
+		return
+	}
+	g := f.Graph()
+	node := isParamIdx(f, 1)
+	newSet := func(e ast.Expr) bool {
+		r := f.Resolve(e)
+		b := f.MatchNew("labels.Set(L)", r)
+		if b == nil {
+			return false
+		}
+		// L is the node's labels, or the local that holds them (replaced by an empty map when nil)
+		if f.MatchWith("N.Labels", f.Resolve(b["L"]), chk.H("N", node)) != nil || f.MatchWith("N.Labels", b["L"], chk.H("N", node)) != nil {
+			return true
+		}
+		if id, isId := ast.Unparen(b["L"]).(*ast.Ident); isId {
+			for _, d := range assignsTo(f, f.ObjOf(id)) {
+				if as, isAs := d.(*ast.AssignStmt); isAs && len(as.Rhs) == 1 && f.MatchWith("N.Labels", as.Rhs[0], chk.H("N", node)) != nil {
+					return true
+				}
+			}
+		}
+		return false
+	}
+	same := chk.GSame(g.GPat(true, "labels.Equals(RECV.nodeLabels, S)", chk.H("S", newSet)), g.GPat(true, "labels.Equals(S, RECV.nodeLabels)", chk.H("S", newSet)),
+		g.GPat(true, "reflect.DeepEqual(RECV.nodeLabels, S)", chk.H("S", newSet)), g.GPat(true, "maps.Equal(RECV.nodeLabels, S)", chk.H("S", newSet)))
+	notMine := chk.GSame(g.GPat(true, "RECV.myNode != N.Name", chk.H("N", node)), g.GPat(false, "RECV.myNode == N.Name", chk.H("N", node)))
+	sync := f.ContainsPat("RECV.syncPeers(_)")
+	store := f.IsAssignPat("RECV.nodeLabels", "S", chk.H("S", newSet))
+	cut := func(b *cfgBlock, k int) bool { return g.EdgeImplies(b, k, same) || g.EdgeImplies(b, k, notMine) }
+	w := (&chk.Walk{G: g, HitExit: true, Stop: sync, Cut: cut}).Run()
+	x.Check("SetNode:labels-changed-resyncs-peers", posOf(w, f), !w.Found && len(g.Find(sync)) >= 1, "", "the local node's labels can change (a key added, removed or revalued) without the BGP peers being re-selected: a session that no longer selects the node stays open with its routes, or one that should exist is missing")
+	w2 := g.MustPass(chk.Site{}, sync, false, store)
+	x.Check("SetNode:labels-stored-before-resync", posOf(w2, f), !w2.Found, "", "the peers are re-selected against the previous label set")
 }
 
 func c09Exit(p *chk.Prog, r *chk.Report) {
